@@ -692,6 +692,8 @@ def g_md_cfg(rng):
     top = g_common(rng)
     if rng.random() < 0.7:
         top["with_keys"] = rng.choice(["sign", "sign+enc", "none"])
+    if rng.random() < 0.3:
+        top["no_xmlsec"] = True
     if rng.random() < 0.2:
         # "encryption" without an encryption key pair makes do_key_descriptor crash at serialisation (list as text)
         top["metadata_key_usage"] = rng.choice(["signing", "encryption", "both"] if top.get("with_keys") == "sign+enc" else ["signing", "both"])
@@ -730,8 +732,9 @@ def instance(cfg):
         from saml2.config import Config
 
         with_keys = top.pop("with_keys", "sign")
-        conf = {"entityid": "https://md.verif.example/entity", "service": copy.deepcopy(cfg["service"]),
-                "xmlsec_binary": S.xmlsec_standin.BINARY, "delete_tmpfiles": True}
+        conf = {"entityid": "https://md.verif.example/entity", "service": copy.deepcopy(cfg["service"]), "delete_tmpfiles": True}
+        if not top.pop("no_xmlsec", False):
+            conf["xmlsec_binary"] = S.xmlsec_standin.BINARY  # adds the algorithm-support elements to md:Extensions
         if with_keys in ("sign", "sign+enc"):
             conf["key_file"] = S.key_path("idp_sign")
             conf["cert_file"] = S.cert_path("idp_sign")
@@ -756,7 +759,7 @@ def peer(role):
 def mk_nameid(d):
     from saml2 import saml
 
-    return saml.NameID(**d) if d is not None else None
+    return saml.NameID(**d) if d else None
 
 
 def mk_status(d):
@@ -953,7 +956,7 @@ def call_logout_response(ent, a):
     kw = sign_kw(a)
     if a.get("issuer"):
         kw["issuer"] = saml.Issuer(text=a["issuer"])
-    return ent.create_logout_response(req, bindings=a["bindings"], status=mk_status(a["status"]), **kw)
+    return ent.create_logout_response(req, bindings=a["bindings"], status=mk_status(a.get("status")), **kw)
 
 
 def ga_error_response(rng, cfg):
@@ -975,6 +978,78 @@ def ga_error_response(rng, cfg):
     return a
 
 
+_exc_classes = []
+
+
+def exception_classes():
+    """Dotted names of every exception class importable from saml2.* (the live code decides), plus a few built-ins."""
+    if _exc_classes:
+        return _exc_classes
+    import importlib
+    import inspect
+    import pkgutil
+
+    import saml2
+
+    found = {}
+    for m in pkgutil.walk_packages(saml2.__path__, "saml2."):
+        if any(x in m.name for x in ("mongo", "tools", "s2repoze", ".ws.", "schema.", "userinfo", "authn_context.", "extension.",
+                                     "attributemaps", "entity_category.", ".data.")):
+            continue
+        try:
+            mod = importlib.import_module(m.name)
+        except Exception:  # optional dependencies of modules the property is not about
+            continue
+        for n, c in vars(mod).items():
+            if inspect.isclass(c) and issubclass(c, Exception) and c.__module__.startswith("saml2"):
+                found[c.__module__ + "." + c.__name__] = c
+    _exc_classes.extend(sorted(found) + ["builtins.Exception", "builtins.ValueError", "builtins.KeyError", "builtins.OSError",
+                                         "builtins.RuntimeError", "builtins.LookupError"])
+    return _exc_classes
+
+
+def mk_exc2(dotted, depth, arg):
+    """An instance of the named class, or of a harness-defined subclass `depth` levels below it; None when the class
+    cannot be constructed from one positional argument."""
+    import importlib
+
+    modname, cname = dotted.rsplit(".", 1)
+    cls = getattr(importlib.import_module(modname), cname)
+    for i in range(depth):
+        cls = type("Harness%sSub%d" % (cname, i + 1), (cls,), {})
+    if isinstance(arg, list):
+        arg = tuple(arg)
+    try:
+        return cls() if arg is None else cls(arg)
+    except TypeError:
+        return None
+
+
+EXC_ARGS = [None, "plain text", "a & <b>", {"status_message_text": "m"},
+            {"status_message_text": "m", "status_code_status_code_value": "urn:oasis:names:tc:SAML:2.0:status:RequestDenied"},
+            {"status_code_status_code_value": "urn:oasis:names:tc:SAML:2.0:status:NoPassive"}, ["a", "b"]]
+
+
+def error_grid(rng, n_random):
+    """create_error_response over the whole exception hierarchy: every class as it is with no argument and with a text,
+    and random (class, subclass depth 1..3, argument shape) combinations."""
+    base = {"op": "doc", "builder": "error_response", "cfg": {"role": "idp", "svc": {}, "top": {}}}
+    names = exception_classes()
+
+    def case(name, depth, arg, role="idp"):
+        c = copy.deepcopy(base)
+        c["cfg"]["role"] = role
+        c["args"] = {"in_response_to": "id-e1", "destination": S.SP_ACS_POST, "info": ["exc2", name, depth, arg], "sign": False}
+        return c
+
+    for name in names:
+        yield case(name, 0, None)
+        yield case(name, 0, "plain text")
+        yield case(name, rng.randint(1, 3), rng.choice(EXC_ARGS[1:3]))
+    for _ in range(n_random):
+        yield case(rng.choice(names), rng.randint(0, 3), rng.choice(EXC_ARGS), rng.choice(["idp", "sp"]))
+
+
 def mk_exc(kind, arg):
     import saml2
     import saml2.response
@@ -990,7 +1065,21 @@ def mk_exc(kind, arg):
 
 def call_error_response(ent, a):
     info = a["info"]
-    inf = (info[1], info[2]) if info[0] == "tuple" else mk_exc(info[1], info[2])
+    if info[0] == "exc2":
+        inf = mk_exc2(info[1], info[2], info[3])
+        if inf is None:
+            return None
+        if inf.args and not isinstance(inf.args[0], (str, dict)):
+            # error_status_factory calls .get on a first argument that is neither text nor a mapping: AttributeError,
+            # nothing is emitted (not a schema question)
+            try:
+                return ent.create_error_response(a["in_response_to"], a["destination"], inf, **sign_kw(a))
+            except AttributeError as e:
+                if "'get'" in str(e):
+                    return None
+                raise
+    else:
+        inf = (info[1], info[2]) if info[0] == "tuple" else mk_exc(info[1], info[2])
     kw = sign_kw(a)
     if a.get("issuer"):
         kw["issuer"] = a["issuer"]
@@ -1038,7 +1127,8 @@ def call_attribute_query(sp, a):
         attribute = {}
         for k, v in a["attribute"]:
             attribute[tuple(k) if isinstance(k, list) else k] = tuple(v) if isinstance(v, list) and len(v) == 2 else v
-    return sp.create_attribute_query(a["destination"], name_id=name_id, attribute=attribute, **kw)[1]
+    return _refusal(lambda: sp.create_attribute_query(a["destination"], name_id=name_id, attribute=attribute, **kw)[1],
+                    AttributeError, "Missing required parameter")
 
 
 def ga_authn_query(rng, cfg):
@@ -1058,7 +1148,7 @@ def call_authn_query(sp, a):
     for k in ("session_index", "message_id"):
         if k in a:
             kw[k] = a[k]
-    return sp.create_authn_query(mk_subject(a["subject"]), destination=a["destination"], authn_context=mk_rac(a.get("authn_context")), **kw)[1]
+    return sp.create_authn_query(mk_subject(a["subject"]), destination=a.get("destination"), authn_context=mk_rac(a.get("authn_context")), **kw)[1]
 
 
 def ga_authz_decision_query(rng, cfg):
@@ -1137,7 +1227,7 @@ def call_artifact_response(ent, a):
     if a.get("issuer"):
         kw["issuer"] = saml.Issuer(text=a["issuer"])
     try:
-        return ent.create_artifact_response(req, art, bindings=a["bindings"], status=mk_status(a["status"]), **kw)
+        return ent.create_artifact_response(req, art, bindings=a["bindings"], status=mk_status(a.get("status")), **kw)
     except AttributeError as e:
         # with signing in effect _status_response returns text and create_artifact_response then fails on
         # `response.extension_elements = ...`: a crash, nothing is emitted (not a schema question)
@@ -1203,7 +1293,7 @@ def call_authn_response(idp, a):
         if k in a:
             kw[k] = S.cert_b64(a[k])
     if a.get("status"):
-        kw["status"] = mk_status(a["status"])
+        kw["status"] = mk_status(a.get("status"))
     return _nil_crash(lambda: idp.create_authn_response(a["identity"], a["in_response_to"], a["destination"], a["sp_entity_id"], **kw))
 
 
@@ -1241,7 +1331,7 @@ def call_attribute_response(idp, a):
     if "name_id" in a:
         kw["name_id"] = mk_nameid(a["name_id"])
     if a.get("status"):
-        kw["status"] = mk_status(a["status"])
+        kw["status"] = mk_status(a.get("status"))
     return _nil_crash(lambda: idp.create_attribute_response(a["identity"], a["in_response_to"], a["destination"], a["sp_entity_id"], **kw))
 
 
@@ -1265,7 +1355,7 @@ def call_authn_query_response(idp, a):
                                       encrypt_assertion=False)
     kw = {k: a[k] for k in ("sign_response",) if k in a}
     if a.get("status"):
-        kw["status"] = mk_status(a["status"])
+        kw["status"] = mk_status(a.get("status"))
     return idp.create_authn_query_response(saml.Subject(name_id=nid), in_response_to=a["in_response_to"], **kw)
 
 
@@ -1309,11 +1399,18 @@ def call_manage_name_id_request(ent, a):
     kw = sign_kw(a)
     if "message_id" in a:
         kw["message_id"] = a["message_id"]
+    from saml2 import saml
+
     if "new_id" in a:
         kw["new_id"] = samlp.NewID(text=a["new_id"])
     if a.get("terminate"):
         kw["terminate"] = samlp.Terminate()
-    return ent.create_manage_name_id_request(a["destination"], name_id=mk_nameid(a["name_id"]), **kw)[1]
+    if a.get("encrypted_id"):
+        kw["encrypted_id"] = mk_encrypted(saml.EncryptedID, a["encrypted_id"])
+    if a.get("new_encrypted_id"):
+        kw["new_encrypted_id"] = mk_encrypted(samlp.NewEncryptedID, a["new_encrypted_id"])
+    return _refusal(lambda: ent.create_manage_name_id_request(a["destination"], name_id=mk_nameid(a.get("name_id")), **kw)[1],
+                    AttributeError, "has to be")
 
 
 def ga_manage_name_id_response(rng, cfg):
@@ -1328,7 +1425,7 @@ def call_manage_name_id_response(ent, a):
     other = S.IDP_ID if ent.entity_type == "sp" else S.SP_ID
     req = samlp.ManageNameIDRequest(id=a["request_id"], version="2.0", issue_instant=S.fmt_time(S.NOW0), issuer=saml.Issuer(text=other),
                                     name_id=saml.NameID(text="subject-1"), terminate=samlp.Terminate())
-    return ent.create_manage_name_id_response(req, bindings=a["bindings"], status=mk_status(a["status"]), **sign_kw(a))
+    return ent.create_manage_name_id_response(req, bindings=a["bindings"], status=mk_status(a.get("status")), **sign_kw(a))
 
 
 def ga_name_id_mapping_request(rng, cfg):
@@ -1338,11 +1435,34 @@ def ga_name_id_mapping_request(rng, cfg):
     return a
 
 
+def mk_encrypted(cls, d):
+    """An EncryptedID / NewEncryptedID element around a (dummy) EncryptedData."""
+    from saml2 import xmlenc
+
+    if d is None:
+        return None
+    return cls(encrypted_data=xmlenc.EncryptedData(cipher_data=xmlenc.CipherData(cipher_value=xmlenc.CipherValue(text=d["cipher"]))))
+
+
+def _refusal(f, exc, fragment):
+    """`f()`, or None when the builder refuses the argument combination with its documented exception."""
+    try:
+        return f()
+    except exc as e:
+        if fragment in str(e):
+            return None
+        raise
+
+
 def call_name_id_mapping_request(sp, a):
-    from saml2 import samlp
+    from saml2 import saml, samlp
 
     pol = samlp.NameIDPolicy(**{k: v for k, v in a["name_id_policy"].items() if v is not None})
-    return sp.create_name_id_mapping_request(pol, name_id=mk_nameid(a["name_id"]), destination=a["destination"], **sign_kw(a))[1]
+    base_id = saml.BaseID(**a["base_id"]) if a.get("base_id") else None
+    return _refusal(lambda: sp.create_name_id_mapping_request(pol, name_id=mk_nameid(a.get("name_id")), base_id=base_id,
+                                                              encrypted_id=mk_encrypted(saml.EncryptedID, a.get("encrypted_id")),
+                                                              destination=a.get("destination"), **sign_kw(a))[1],
+                    ValueError, "At least one of")
 
 
 def ga_name_id_mapping_response(rng, cfg):
@@ -1389,7 +1509,7 @@ def call_assertion_id_request(sp, a):
 
 
 def ga_entity_descriptor(rng, cfg):
-    a = {"sign": rng.random() < 0.35}
+    a = {"sign": rng.random() < 0.35 and not cfg["top"].get("no_xmlsec")}
     if a["sign"] and rng.random() < 0.5:
         a["ident"] = g_ncname(rng)
     if rng.random() < 0.2:
@@ -1405,7 +1525,7 @@ def _secc(conf):
     c = Config()
     c.key_file = conf.key_file or S.key_path("idp_sign")
     c.cert_file = conf.cert_file or S.cert_path("idp_sign")
-    c.xmlsec_binary = conf.xmlsec_binary
+    c.xmlsec_binary = conf.xmlsec_binary or S.xmlsec_standin.BINARY
     c.crypto_backend = conf.crypto_backend
     c.delete_tmpfiles = True
     return security_context(c)
@@ -1424,7 +1544,7 @@ def call_entity_descriptor(conf, a):
 
 def ga_entities_descriptor(rng, cfg):
     a = {"n": rng.randint(1, 3), "valid_for": rng.choice([0, 0, 24, 8760]), "name": rng.choice([None, "urn:mace:example.org:fed", g_text(rng)]),
-         "ident": rng.choice([None, g_ncname(rng)]), "sign": rng.random() < 0.35}
+         "ident": rng.choice([None, g_ncname(rng)]), "sign": rng.random() < 0.35 and not cfg["top"].get("no_xmlsec")}
     if rng.random() < 0.2:
         a["sign_alg"] = rng.choice(SIG_ALGS)
         a["digest_alg"] = rng.choice(DIG_ALGS)
@@ -1461,16 +1581,52 @@ BUILDERS = {
     "authn_query_response": (["idp"], True, ga_authn_query_response, call_authn_query_response, 2),
     "entity_descriptor": (["md"], True, ga_entity_descriptor, call_entity_descriptor, 8),
     "entities_descriptor": (["md"], True, ga_entities_descriptor, call_entities_descriptor, 3),
-    # not named by the statement: exercised for the validator correspondence, unconstrained by the spec
-    "assertion_id_response": (["idp"], False, ga_assertion_id_response, call_assertion_id_response, 1),
-    "manage_name_id_request": (["sp", "idp"], False, ga_manage_name_id_request, call_manage_name_id_request, 1),
-    "manage_name_id_response": (["sp", "idp"], False, ga_manage_name_id_response, call_manage_name_id_response, 1),
-    "name_id_mapping_request": (["sp"], False, ga_name_id_mapping_request, call_name_id_mapping_request, 1),
-    "name_id_mapping_response": (["idp"], False, ga_name_id_mapping_response, call_name_id_mapping_response, 1),
-    "ecp_authn_request": (["sp"], False, ga_ecp_authn_request, call_ecp_authn_request, 1),
-    "ecp_authn_response": (["idp"], False, ga_ecp_authn_response, call_ecp_authn_response, 1),
-    "assertion_id_request": (["sp"], False, ga_assertion_id_request, call_assertion_id_request, 1),
+    # not named one by one in the statement's list, but public create_* builders all the same (quantifier): constrained too
+    "assertion_id_response": (["idp"], True, ga_assertion_id_response, call_assertion_id_response, 1),
+    "manage_name_id_request": (["sp", "idp"], True, ga_manage_name_id_request, call_manage_name_id_request, 1),
+    "manage_name_id_response": (["sp", "idp"], True, ga_manage_name_id_response, call_manage_name_id_response, 1),
+    "name_id_mapping_request": (["sp"], True, ga_name_id_mapping_request, call_name_id_mapping_request, 1),
+    "name_id_mapping_response": (["idp"], None, ga_name_id_mapping_response, call_name_id_mapping_response, 1),  # see is_strict
+    "ecp_authn_request": (["sp"], True, ga_ecp_authn_request, call_ecp_authn_request, 1),
+    "ecp_authn_response": (["idp"], True, ga_ecp_authn_response, call_ecp_authn_response, 1),
+    "assertion_id_request": (["sp"], True, ga_assertion_id_request, call_assertion_id_request, 1),
 }
+
+K_NIM_STATUS = "C13/name-id-mapping-response-without-status"
+_recorded = []
+
+
+def _finding_recorded(key):
+    if not _recorded:
+        _recorded.append(set())
+        path = os.path.join(os.path.dirname(os.path.dirname(os.path.dirname(os.path.abspath(__file__)))), "KNOWN_FINDINGS.jsonl")
+        try:
+            with open(path, encoding="utf-8") as f:
+                for line in f:
+                    line = line.strip()
+                    if line.startswith("{"):
+                        _recorded[0].add(json.loads(line).get("key"))
+                    elif line.startswith("fixed:") and "[key=" in line:  # fixed: property=Cxx <commit> <what> [key=<key>]
+                        _recorded[0].add(line.rsplit("[key=", 1)[1].split("]", 1)[0].strip())
+        except OSError:
+            pass
+    return key in _recorded[0]
+
+
+def is_strict(case):
+    """Does the spec constrain the output of this call?
+    * create_name_id_mapping_response never writes the required <Status> (unchanged code; reported, record proposed): its
+      outputs are constrained as soon as KNOWN_FINDINGS.jsonl carries the record (known or fixed), until then they only
+      serve the validator correspondence;
+    * a BaseID that the builder passes on (base_id without name_id) is outside 'valid call arguments': saml:BaseID is of
+      an abstract type and no concrete extension type exists in the shipped schemas, so no such call can validate."""
+    b = case["builder"]
+    strict = BUILDERS[b][1]
+    if strict is None:
+        return _finding_recorded(K_NIM_STATUS)
+    if b == "name_id_mapping_request" and case["args"].get("base_id") and not case["args"].get("name_id"):
+        return False
+    return strict
 
 
 # ============================================================================ implementation side
@@ -1533,7 +1689,8 @@ def run_doc(case):
     import saml2
     from saml2.s_utils import UnsupportedBinding, UnknownSystemEntity
 
-    roles, strict, _, call, _ = BUILDERS[case["builder"]]
+    roles, _, _, call, _ = BUILDERS[case["builder"]]
+    strict = is_strict(case)
     inst = instance(case["cfg"])
     try:
         with S.clock(S.NOW0):
@@ -1753,7 +1910,15 @@ def _repair_aa(case, t):
     return t if done else None
 
 
-REPAIRS = [(K_AA, _repair_aa), (K_DUP_ID, _repair_dup_id), (K_EIDAS_NF, _repair_eidas_nf), (K_ACTION_NS, _repair_action_ns), (K_PEFIM, _repair_pefim)]
+def _repair_nim_status(case, t):
+    if case["builder"] != "name_id_mapping_response" or any(k[0] == SAMLP and k[1] == "Status" for k in t[4]):
+        return None
+    pos = max([i + 1 for i, k in enumerate(t[4]) if k[1] in ("Issuer", "Signature", "Extensions")] or [0])
+    t[4].insert(pos, [SAMLP, "Status", [], "", [[SAMLP, "StatusCode", [["", "Value", "urn:oasis:names:tc:SAML:2.0:status:Success"]], "", []]]])
+    return t
+
+
+REPAIRS = [(K_NIM_STATUS, _repair_nim_status), (K_AA, _repair_aa), (K_DUP_ID, _repair_dup_id), (K_EIDAS_NF, _repair_eidas_nf), (K_ACTION_NS, _repair_action_ns), (K_PEFIM, _repair_pefim)]
 
 
 def _empty_typed_value(t):
@@ -1904,7 +2069,164 @@ def doc_cases(rng, tier):
                     yield m
 
 
+# ---------------------------------------------------------------------------- complete small grids
+
+_ACS = [[S.SP_ACS_POST, S.BINDING_POST]]
+MD_ATOMS = [
+    # (name, group, function applied to a bare configuration)   atoms of one group exclude each other
+    ("sp_type", "sptype", lambda c: c["service"]["sp"].update({"sp_type": "public"})),
+    ("sp_type+in_md", "sptype", lambda c: c["service"]["sp"].update({"sp_type": "private", "sp_type_in_metadata": True})),
+    ("sp_type+not_in_md", "sptype", lambda c: c["service"]["sp"].update({"sp_type": "public", "sp_type_in_metadata": False})),
+    ("in_md_only", "sptype", lambda c: c["service"]["sp"].update({"sp_type_in_metadata": True})),
+    ("entity_category", None, lambda c: c["top"].update({"entity_category": ["http://refeds.org/category/research-and-scholarship"]})),
+    ("entity_category_support", None, lambda c: c["top"].update({"entity_category_support": ["http://refeds.org/category/research-and-scholarship"]})),
+    ("entity_attributes", None, lambda c: c["top"].update({"entity_attributes": [{"format": "urn:oasis:names:tc:SAML:2.0:attrname-format:uri", "name": "urn:x:a", "values": ["v"]}]})),
+    ("entity_attributes_novalues", None, lambda c: c["top"].update({"entity_attributes": [{"name": "urn:x:b", "values": []}]})),
+    ("assurance_certification", None, lambda c: c["top"].update({"assurance_certification": ["https://refeds.org/sirtfi"]})),
+    ("extensions", None, lambda c: c["top"].update({"extensions": {"mdrpi": {"RegistrationInfo": {"registration_authority": "urn:x:ra", "registration_instant": "2026-01-01T00:00:00Z"}}}})),
+    ("xmlsec_binary", None, lambda c: c["top"].pop("no_xmlsec")),
+    ("organization", None, lambda c: c["top"].update({"organization": {"name": "Example", "display_name": ["Ex"], "url": "http://example.com"}})),
+    # an organization without display_name (or without name / url) is NOT in the grid: md:Organization requires all three
+    # parts, the configuration mirrors them one to one, so an incomplete one is outside 'valid configuration'
+    # (the library writes it out as it is: schema-invalid metadata; reported as an observation)
+    ("contact_person", None, lambda c: c["top"].update({"contact_person": [{"given_name": "D", "contact_type": "technical"}]})),
+    ("contact_person_doc_keys", None, lambda c: c["top"].update({"contact_person": [{"givenname": "D", "surname": "J", "mail": ["j@example.com"], "type": "technical"}]})),
+    ("valid_for", None, lambda c: c["top"].update({"valid_for": 24})),
+    ("keys", "keys", lambda c: c["top"].update({"with_keys": "sign"})),
+    ("keys+enc", "keys", lambda c: c["top"].update({"with_keys": "sign+enc"})),
+    ("name", None, lambda c: c["top"].update({"name": "svc name"})),
+    ("description", None, lambda c: c["top"].update({"description": "a description"})),
+    ("required_attributes", None, lambda c: c["service"]["sp"].update({"required_attributes": ["givenName"]})),
+    ("optional_attributes", None, lambda c: c["service"]["sp"].update({"optional_attributes": ["mail"]})),
+    ("ui_info", None, lambda c: c["service"]["sp"].update({"ui_info": {"display_name": "Example"}})),
+    ("discovery_response", None, lambda c: c["service"]["sp"].update({"discovery_response": [["https://sp.verif.example/disco", S.BINDING_DISCO]]})),
+    ("name_id_format", None, lambda c: c["service"]["sp"].update({"name_id_format": [NAMEID_FORMATS[0]]})),
+    ("sp_signed_flags", None, lambda c: c["service"]["sp"].update({"authn_requests_signed": True, "want_assertions_signed": False})),
+    ("role_idp", None, lambda c: c["service"].update({"idp": {"endpoints": {"single_sign_on_service": [[S.IDP_SSO_REDIRECT, S.BINDING_REDIRECT]]}}})),
+    ("role_idp_scope", None, lambda c: c["service"].update({"idp": {"endpoints": {"single_sign_on_service": [[S.IDP_SSO_REDIRECT, S.BINDING_REDIRECT]]}, "scope": ["example.org"], "want_authn_requests_signed": True}})),
+    ("role_aa", None, lambda c: c["service"].update({"aa": {"endpoints": {"attribute_service": [["https://idp.verif.example/aa", S.BINDING_SOAP]]}}})),
+    ("role_aa_attr", None, lambda c: c["service"].update({"aa": {"endpoints": {"attribute_service": [["https://idp.verif.example/aa", S.BINDING_SOAP]]}, "attribute": ["urn:oid:2.5.4.42"], "attribute_profile": ["urn:oasis:names:tc:SAML:2.0:profiles:attribute:basic"]}})),
+    ("role_aq", None, lambda c: c["service"].update({"aq": {"endpoints": {"authn_query_service": [["https://idp.verif.example/aq", S.BINDING_SOAP]]}}})),
+    ("role_pdp", None, lambda c: c["service"].update({"pdp": {"endpoints": {"authz_service": [["https://idp.verif.example/pdp", S.BINDING_SOAP]]}}})),
+    ("no_sp_role", None, lambda c: (c["service"].pop("sp"), c["service"].update({"idp": {"endpoints": {"single_sign_on_service": [[S.IDP_SSO_POST, S.BINDING_POST]]}}}))),
+]
+
+
+def md_grid():
+    """Metadata generation on an otherwise bare configuration (one SP role with one endpoint, no keys, no xmlsec binary):
+    the bare configuration, every optional entity-level / role-level option ALONE, and every PAIR of them - complete."""
+
+    def build(atoms):
+        c = {"role": "md", "service": {"sp": {"endpoints": {"assertion_consumer_service": copy.deepcopy(_ACS)}}},
+             "top": {"with_keys": "none", "no_xmlsec": True}}
+        for _, _, f in atoms:
+            f(c)
+        return c
+
+    combos = [[]] + [[a] for a in MD_ATOMS]
+    for i, a in enumerate(MD_ATOMS):
+        for b in MD_ATOMS[i + 1:]:
+            if a[1] is not None and a[1] == b[1]:
+                continue
+            combos.append([a, b])
+    for atoms in combos:
+        try:
+            cfg = build(atoms)
+        except KeyError:
+            continue  # an option of the SP section after the SP role was removed
+        yield {"op": "doc", "builder": "entity_descriptor", "cfg": cfg, "args": {"sign": False}, "grid": "+".join(a[0] for a in atoms) or "bare"}
+
+
+def _enc_id():
+    return {"cipher": "QUJD"}
+
+
+def arg_grid():
+    """Complete products of the optional identifier / selector arguments of the request builders, present or absent,
+    on default instances."""
+    sp0 = {"role": "sp", "svc": {}, "top": {}}
+    idp0 = {"role": "idp", "svc": {}, "top": {}}
+    nid = {"text": "subject-1", "format": NAMEID_FORMATS[1]}
+
+    def doc(builder, cfg, args):
+        args = {k: v for k, v in args.items() if v is not None}
+        args.setdefault("sign", False)
+        return {"op": "doc", "builder": builder, "cfg": cfg, "args": args}
+
+    def bits(n):
+        for m in range(2 ** n):
+            yield [bool(m >> i & 1) for i in range(n)]
+
+    # NameIDMappingRequest: name_id x base_id x encrypted_id
+    for n, b, e in bits(3):
+        yield doc("name_id_mapping_request", sp0, {"name_id_policy": {"format": NAMEID_FORMATS[1]}, "name_id": nid if n else None,
+                                                   "base_id": {"name_qualifier": "urn:q"} if b else None, "encrypted_id": _enc_id() if e else None,
+                                                   "destination": "https://idp.verif.example/nim"})
+    # LogoutRequest: subject_id x name_id x session_indexes x reason x expire, both entity kinds
+    for cfg in (sp0, idp0):
+        for sj, n, si, rs, ex in bits(5):
+            yield doc("logout_request", cfg, {"destination": S.IDP_SLO_POST, "issuer_entity_id": S.IDP_ID, "subject_id": "subject-1" if sj else None,
+                                              "name_id": nid if n else None, "session_indexes": ["si-1", "si-2"] if si else None,
+                                              "reason": "urn:oasis:names:tc:SAML:2.0:logout:user" if rs else None,
+                                              "expire": S.fmt_time(S.NOW0 + 300) if ex else None})
+    # AttributeQuery: subject form x qualifier keywords x attribute
+    for form in ("name_id", "name_id_str", "subject_id", None):
+        for fm, sq, nq, at in bits(4):
+            a = {"destination": "https://idp.verif.example/aa", "format": NAMEID_FORMATS[2] if fm else None,
+                 "sp_name_qualifier": S.SP_ID if sq else None, "name_qualifier": S.IDP_ID if nq else None,
+                 "attribute": [["urn:oid:2.5.4.42", None], [["urn:oid:2.5.4.4", "urn:oasis:names:tc:SAML:2.0:attrname-format:uri", "sn"], "a"]] if at else None}
+            if form == "name_id":
+                a["name_id"] = nid
+            elif form:
+                a[form] = "subject-1"
+            yield doc("attribute_query", sp0, a)
+    # AuthnQuery: destination x authn_context x session_index
+    for d, ac, si in bits(3):
+        yield doc("authn_query", sp0, {"subject": nid, "destination": "https://idp.verif.example/aq" if d else None,
+                                       "authn_context": {"authn_context_class_ref": [ACCR[0]], "comparison": "exact"} if ac else None,
+                                       "session_index": "si-1" if si else None})
+    # ManageNameIDRequest: name_id x encrypted_id x new_id x new_encrypted_id x terminate, both entity kinds
+    for cfg in (sp0, idp0):
+        for n, e, ni, ne, te in bits(5):
+            yield doc("manage_name_id_request", cfg, {"destination": "https://idp.verif.example/mni", "name_id": nid if n else None,
+                                                      "encrypted_id": _enc_id() if e else None, "new_id": "new-1" if ni else None,
+                                                      "new_encrypted_id": _enc_id() if ne else None, "terminate": True if te else None})
+    # AuthnRequest: the three ways to name the assertion consumer service x NameIDPolicy format x allow_create
+    for u, i, us, nf, acr in bits(5):
+        yield doc("authn_request", sp0, {"destination": S.IDP_SSO_POST, "binding": S.BINDING_POST,
+                                         "assertion_consumer_service_url": S.SP_ACS_POST if u else None,
+                                         "assertion_consumer_service_index": "1" if i else None,
+                                         "assertion_consumer_service_urls": [S.SP_ACS_REDIRECT] if us else None,
+                                         "nameid_format": NAMEID_FORMATS[1] if nf else None, "allow_create": True if acr else None})
+    # Response: name_id x userid x name_id_policy (an identifier is needed: the combination without both is left out)
+    for n, u, pol in bits(3):
+        if not n and not u:
+            continue
+        yield doc("authn_response", idp0, {"identity": {"mail": ["a@example.org"]}, "in_response_to": "id-r1", "destination": S.SP_ACS_POST,
+                                           "sp_entity_id": S.SP_ID, "name_id": nid if n else None, "userid": "user-1" if u else None,
+                                           "name_id_policy": {"format": NAMEID_FORMATS[1], "sp_name_qualifier": S.SP_ID} if pol else None,
+                                           "authn": {"class_ref": ACCR[0]}})
+        yield doc("attribute_response", idp0, {"identity": {"mail": ["a@example.org"]}, "in_response_to": "id-r1", "destination": S.SP_ACS_POST,
+                                               "sp_entity_id": S.SP_ID, "name_id": nid if n else None, "userid": "user-1" if u else None})
+    # LogoutResponse / ManageNameIDResponse / ArtifactResponse: status x issuer
+    for st, iss in bits(2):
+        for cfg in (sp0, idp0):
+            for b in ("logout_response", "manage_name_id_response", "artifact_response"):
+                a = {"request_id": "id-q1", "bindings": [S.BINDING_SOAP], "status": {"code": "urn:oasis:names:tc:SAML:2.0:status:Responder", "sub": STATUS2[0], "message": "m"} if st else None}
+                if iss and b != "manage_name_id_response":
+                    a["issuer"] = S.IDP_ID
+                if b == "artifact_response":
+                    a["message"] = "authn_request"
+                yield doc(b, cfg, a)
+
+
 def gen_cases(rng, tier):
+    for c in md_grid():
+        yield c
+    for c in arg_grid():
+        yield c
+    for c in error_grid(rng, 60 if tier == "quick" else 1500):
+        yield c
     for c in lex_cases(rng, 30 if tier == "quick" else 400):
         yield c
     for c in order_cases(rng, 8 if tier == "quick" else 80):
